@@ -131,6 +131,51 @@ def run(prop, obligations, tier, scratch, log):
     return results
 
 
+def _run_x(prop, ob, build, a, tier, dig, log):
+    os.environ["VERIF_TIER"] = tier
+    try:
+        r = a.check(600 if tier == "quick" else 2400)
+        canary = None
+        seed = int(os.environ.get("VERIF_SEED", "0") or 0)
+        if r["verdict"] == "proved" and getattr(a, "canary", None) and (tier == "thorough" or seed % 3 == 0):
+            c = a.canary(600 if tier == "quick" else 2400)
+            canary = c["verdict"]
+            if c["verdict"] != "refuted":
+                r = dict(r, verdict="inconclusive", reason="canary (same encoding with the sort model removed) was not refuted: %s" % c.get("reason", ""))
+    except mir.MirError as e:
+        log("[%s] inconclusive %-34s %s" % (ob["ob"], build.__name__, e))
+        return {"ob": ob["ob"], "engine": "mir/symex", "query": build.__name__, "verdict": "inconclusive",
+                "reason": "symbolic executor could not follow the code (fails closed): %s" % e}
+    res = {"ob": ob["ob"], "obligation": ob["ob"], "engine": "mir/symex (bounded symbolic execution of MIR; %s)" % r.get("solvers", ""),
+           "query": a.name, "builder": build.__name__, "verdict": r["verdict"], "reason": r.get("reason", ""),
+           "functions_encoded": [a.fn.name + " (MIR, %d blocks) and the closures it passes" % len(a.fn.blocks)],
+           "events": {}, "requirements": [m for (_, _, m) in a.requires],
+           "bound": "L0 shapes %s (tables per run); every path of the function for each shape (%d paths, %d feasible); integer contents symbolic at their real widths" % (
+               getattr(a, "shapes", "?"), r.get("paths", 0), r.get("feasible_paths", 0)),
+           "smt_assertions": r.get("assertions", 0), "z3": r.get("z3"), "z3_s": r.get("z3_s", 0), "cvc5": r.get("cvc5"),
+           "cvc5_s": r.get("cvc5_s"), "solver_s": (r.get("z3_s") or 0) + (r.get("cvc5_s") or 0),
+           "states": r.get("assertions", 0), "transitions": r.get("queries", 0), "source_digest": dig,
+           "glue_facts": [{"fact": g[0], "verdict": g[1], "solver_s": round(g[2], 3)} for g in getattr(a, "glue", [])],
+           "queries": r.get("queries"), "cross_checked": r.get("cross_checked"), "cross_unknown": r.get("cross_unknown"),
+           "covered_outcomes": r.get("covered_outcomes"), "canary": canary,
+           "assumptions": ["engine X: callees are replaced by the models listed here; anything without a model fails closed"] + list(r.get("assumptions", []))}
+    if r["verdict"] == "refuted":
+        rdir = os.path.join(VERIF, "replays", prop)
+        os.makedirs(rdir, exist_ok=True)
+        rp = os.path.join(rdir, "mir.%s.%s.txt" % (ob["ob"], build.__name__))
+        with open(rp, "w") as f:
+            f.write("# engine X counterexample (property %s, obligation %s)\n# %s\n# function: %s\n# violated: %s\n"
+                    "# Inputs below are a solver model for one path of the compiled function's MIR (digest %s); the path is listed by basic block.\n"
+                    "# Not replayed natively: table creation times and sizes cannot be forced through the public API.\n" % (
+                        prop, ob["ob"], a.name, a.fn.name, r["reason"], dig[:16]))
+            f.write("\n".join(r.get("path", [])) + "\n")
+        res["replay"] = rp
+        res["path"] = r.get("path", [])
+    log("[%s] %-10s %-60s paths=%s queries=%s decide=%.2fs cross=%ss %s" % (
+        ob["ob"], r["verdict"], a.name[:60], r.get("paths"), r.get("queries"), r.get("z3_s", 0), r.get("cvc5_s"), r.get("reason", "")[:140]))
+    return res
+
+
 def _run(prop, obligations, tier, scratch, log):
     results = []
     try:
@@ -165,6 +210,13 @@ def _run(prop, obligations, tier, scratch, log):
                 log("[%s] inconclusive %-34s %s: %s" % (ob["ob"], build.__name__, type(e).__name__, e))
                 continue
             for a in auts:
+                if hasattr(a, "check"):  # engine X (symbolic execution of MIR with data): xspecs.XCheck
+                    results.append(_run_x(prop, ob, build, a, tier, dig, log))
+                    continue
+                if not a.requires:  # an automaton without requirements proves nothing: never report it as proved
+                    results.append({"ob": ob["ob"], "engine": "mir/smt", "query": a.name, "verdict": "inconclusive",
+                                    "reason": "spec builder produced no requirement (vacuous)"})
+                    continue
                 r = bmc.check(a, timeout=300 if tier == "quick" else 1200)
                 res = {"ob": ob["ob"], "obligation": ob["ob"], "engine": "mir/smt (z3 + cvc5 cross-check)",
                        "query": a.name, "builder": build.__name__, "verdict": r["verdict"], "reason": r.get("reason", ""),
